@@ -11,6 +11,7 @@ CRATE = "e_rand"
 DRIVER = "drv_rand"
 DRIVER_MODULE = "Driver.Rand"
 PROPS = "RlibModel.Props.C14"
+PROPS_SRC = "RlibModel.Props.C14Src"     # second tie: `src_*` theorems about the definitions regenerated from the source text
 PROFILES = ["release"]
 SHRINK_SEP = ";"
 RULE = ("case kinds: gen (gen_from_u64 of one integer range on a list of adversarial raw words 0, 1, len-1, len, len+1, "
